@@ -331,8 +331,19 @@ func contentFor(key string, variant int) string {
 
 var cidPrefixes = [][3]uint64{{0, 0x70, 0x12}, {1, 0x55, 0x12}, {1, 0x71, 0x12}, {1, 0x0129, 0x12}, {1, 0x71, 0x13}, {1, 0x55, 0x00}}
 
+// tiny contents: the empty block and one-byte blocks are blocks like any other
+func (g *gen) shrink(c string) string {
+	switch x := g.rng.Intn(100); {
+	case x < 12:
+		return ""
+	case x < 24:
+		return string([]byte{byte(g.rng.Intn(256))})
+	}
+	return c
+}
+
 func (g *gen) cidKey() (string, string) {
-	content := "blk:" + lib.Hex(g.rng.BytesN(1+g.rng.Intn(12)))
+	content := g.shrink("blk:" + lib.Hex(g.rng.BytesN(1+g.rng.Intn(12))))
 	p := cidPrefixes[g.rng.Intn(len(cidPrefixes))]
 	return lib.RealCid(p[0], p[1], p[2], content), content
 }
@@ -358,12 +369,16 @@ func (g *gen) keySet() ([]string, map[string]string) {
 				p := cidPrefixes[r.Intn(len(cidPrefixes))]
 				add(lib.RealCid(p[0], p[1], p[2], c), c)
 			}
+		case r.Chance(8): // two long keys that differ only in the tail
+			p := lib.LongPairs[r.Intn(len(lib.LongPairs))]
+			add(p[0], g.shrink(contentFor(p[0], 0)))
+			add(p[1], g.shrink(contentFor(p[1], 0)))
 		case r.Chance(70):
 			k := lib.HostileKeys[r.Intn(len(lib.HostileKeys))]
-			add(k, contentFor(k, 0))
+			add(k, g.shrink(contentFor(k, 0)))
 		default:
 			k := r.BytesN(1 + r.Intn(40))
-			add(k, contentFor(k, 0))
+			add(k, g.shrink(contentFor(k, 0)))
 		}
 	}
 	return keys, content
@@ -498,6 +513,43 @@ func corpus(out *lib.Out) {
 			runCase(out, next(), "fs", sh, []string{"n:" + lib.Hex(contentFor(hk, 0)), "h:" + kh, "p:" + kh + ":0", "h:" + kh, "g:" + kh, "r:" + kh, "k:" + kh,
 				"p:" + lib.Hex("plain") + ":0", "g:" + lib.Hex("plain"), "h:" + kh})
 		}
+	}
+	// the empty block and a one-byte block, through every put form, on every store
+	tiny := func(store, cfg string, k1, k2, k3, k4 string) {
+		for _, blk := range []string{"", "\x00", "z"} {
+			b := lib.Hex(blk)
+			runCase(out, next(), store, cfg, []string{"n:" + b, "n:",
+				"p:" + k1 + ":0", "h:" + k1, "g:" + k1, "r:" + k1, "k:" + k1,
+				"s:" + k2 + ":0", "h:" + k2, "g:" + k2, "r:" + k2, "k:" + k2,
+				"s:" + k3 + ":1,0,1", "h:" + k3, "g:" + k3,
+				"v:" + k4 + ":0", "h:" + k4, "g:" + k4, "r:" + k4, "k:" + k4})
+		}
+		// a stream / vector with no chunk at all commits the empty block
+		runCase(out, next(), store, cfg, []string{"s:" + k1 + ":", "h:" + k1, "g:" + k1, "v:" + k2 + ":", "h:" + k2, "g:" + k2, "r:" + k2})
+	}
+	for _, sh := range []string{"r12", "r122", "r133"} {
+		tiny("fs", sh, lib.Hex("tiny1"), lib.Hex("tiny2"), lib.Hex("tiny3"), lib.Hex("tiny4"))
+	}
+	tiny("mem", "-", lib.Hex("tiny1"), lib.Hex("tiny2"), lib.Hex("tiny3"), lib.Hex("tiny4"))
+	for _, blk := range []string{"", "\x00", "z"} {
+		// cidlink.Memory: the key is the CID of the block
+		b := lib.Hex(blk)
+		k0, k1 := lib.Hex(lib.RealCid(0, 0x70, 0x12, blk)), lib.Hex(lib.RealCid(1, 0x55, 0x12, blk))
+		kid := lib.Hex(lib.RealCid(1, 0x55, 0x00, blk))
+		runCase(out, next(), "cidmem", "-", []string{"n:" + b, "n:", "g:" + k0, "p:" + k0 + ":0", "g:" + k0, "g:" + k1,
+			"s:" + kid + ":1,0,1", "g:" + kid, "s:" + k1 + ":0", "g:" + k1})
+	}
+	// long keys sharing a long prefix: never one answering for the other
+	for _, sh := range []string{"r12", "r122", "r133"} {
+		for _, p := range lib.LongPairs {
+			a, b := lib.Hex(p[0]), lib.Hex(p[1])
+			runCase(out, next(), "fs", sh, []string{"n:" + c, "n:" + c2, "p:" + a + ":0", "h:" + b, "g:" + b, "h:" + a, "g:" + a,
+				"p:" + b + ":1", "g:" + a, "g:" + b, "r:" + a, "k:" + b})
+		}
+	}
+	for _, p := range lib.LongPairs {
+		a, b := lib.Hex(p[0]), lib.Hex(p[1])
+		runCase(out, next(), "mem", "-", []string{"n:" + c, "n:" + c2, "p:" + a + ":0", "h:" + b, "g:" + b, "p:" + b + ":1", "g:" + a, "g:" + b})
 	}
 	for _, hk := range lib.HostileKeys {
 		kh := lib.Hex(hk)
